@@ -14,6 +14,13 @@ pub mod c12;
 pub mod c13;
 pub mod c14;
 pub mod c15;
+pub mod c19;
+pub mod c19_gen;
+pub mod c19_lock;
+pub mod c19_micro_a;
+pub mod c19_micro_b;
+pub mod c19_model;
+pub mod c19_prog;
 pub mod c20;
 pub mod c20_coll;
 pub mod c20_dash;
@@ -25,7 +32,7 @@ pub mod c17;
 pub mod c18;
 
 pub fn all() -> Vec<Check> {
-    vec![c01::check(), c02::check(), c03::check(), c04::check(), c05::check(), c06::check(), c07::check(), c08::check(), c12::check(), c13::check(), c14::check(), c15::check(), c16::check(), c17::check(), c18::check(), c20::check()]
+    vec![c01::check(), c02::check(), c03::check(), c04::check(), c05::check(), c06::check(), c07::check(), c08::check(), c12::check(), c13::check(), c14::check(), c15::check(), c16::check(), c17::check(), c18::check(), c19::check(), c20::check()]
 }
 
 pub fn child_main(args: &[String]) -> i32 {
